@@ -286,7 +286,7 @@ fn chk(out: &mut Shards, id: usize, t: &mut Td, rng: &mut Rng) -> bool {
         let tw = t.d.total_weight();
         if tw == 0 {
             return json!({"op":"DChk","id":id,"k":k,"tw":0,"ws":[],"means":[],"len":bytes.len(),"min":0,"max":0,"smin":0,"smax":0,
-                "rmin1e6":0,"rmax1e6":1000000,"cmin":0,"cmax":0});
+                "rmin1e6":0,"rmax1e6":1000000,"cmin":0,"cmax":0,"img":bytes,"rev":bytes[5] & 4 != 0,"minb":[],"maxb":[],"mb":[]});
         }
         // grids
         let nv = 40;
@@ -355,11 +355,19 @@ fn chk(out: &mut Shards, id: usize, t: &mut Td, rng: &mut Rng) -> bool {
             "qs":qs_r,"cdf_ok":cdf_ok,"pmf_ok":pmf_ok,"empty_split_ok":empty_split_ok,
             "rq":rq,"q6":q6,"res6":res6,
             "cmin":t.cmin,"cmax":t.cmax,
+            "rev":bytes[5] & 4 != 0,
+            "minb":min.to_le_bytes().to_vec(),"maxb":max.to_le_bytes().to_vec(),
+            "mb":cs.iter().map(|c| c.0.to_le_bytes().to_vec()).collect::<Vec<_>>(),
             "rmin1e6":(t.d.rank(min).unwrap() * 1e6).round() as i64,
             "rmax1e6":(t.d.rank(max).unwrap() * 1e6).round() as i64})
     }));
     match r {
-        Ok(v) => {
+        Ok(mut v) => {
+            // C12: the image itself (small ones), re-encoded by the specification
+            let img = t.d.serialize();
+            if img.len() <= 2000 && v.get("img").is_none() {
+                v["img"] = json!(img);
+            }
             out.ev(v);
             true
         }
